@@ -214,6 +214,24 @@ def run_mixed(ctx, byte):
                 got = {int(e[0]): c for e, c in zip(r.exponents.tolist(), r.coefficients)}.get(1)
                 if r.dtype != want.dtype or got is None or not exact_equal(got, want.astype(want.dtype)):
                     ctx.fail(case, f"{fn} of {trio} polynomials has dtype {r.dtype} / q0-coefficients {None if got is None else numpy.asarray(got).tolist()}; numpy.{fn} of the coefficient arrays gives {want.dtype} {want.tolist()}", ["mixed", "join3", "dtype"])
+        # a scalar coefficient next to an array coefficient, either order, several types: the scalar is broadcast, no value is
+        # dropped (D66)
+        for dt in ("int64", "float32", "int8", "float64"):
+            arr_ = numpy.array([1, 2, 3], dtype=dt)
+            for label, build in (("scalar first", lambda: numpoly.polynomial({(0,): numpy.array(5, dtype=dt), (1,): arr_})),
+                                 ("array first", lambda: numpoly.polynomial({(1,): arr_, (0,): numpy.array(5, dtype=dt)})),
+                                 ("attributes", lambda: numpoly.polynomial_from_attributes([[0], [1]], [numpy.array(5, dtype=dt), arr_]))):
+                ctx.evaluations += 1
+                ctx.count("mixed.shapes")
+                case = {"kind": "mixed", "route": f"scalar and array coefficient, {label}", "dtype": dt}
+                try:
+                    p = build()
+                except Exception as err:  # noqa: BLE001
+                    ctx.fail(case, f"a scalar and an array coefficient ({label}, {dt}) raised {type(err).__name__}: {str(err)[:100]}", ["mixed", "shapes", "raises"])
+                    continue
+                got = {int(e[0]): numpy.asarray(c).tolist() for e, c in zip(p.exponents.tolist(), p.coefficients)}
+                if p.shape != (3,) or got != {0: [5, 5, 5], 1: [1, 2, 3]} or str(p.dtype) != dt or poisoned(p, byte):
+                    ctx.fail(case, f"a scalar 5 and the array [1, 2, 3] as coefficients ({label}, {dt}): shape {p.shape}, stored {got} ({p.dtype})", ["mixed", "shapes", "value"])
         # dict with Python scalars of different kinds
         for first, second in ((1, 2.5), (2.5, 1), (1, 1 + 2j), (True, 3)):
             ctx.evaluations += 1
